@@ -419,7 +419,7 @@ def run(model, tier="quick"):
         res.rules.append("R-FRESH")
     fresh_rule(model, res, scope=('demeter/deribit/',))
     res.assumptions = ["order books are lists of [price, size] sorted best-first (data)",
-                       "round_decimal / get_new_order_list / _find_available_orders are compared as opaque helpers here "
+                       "round_decimal / get_new_order_list / _find_available_orders are opaque atoms inside the ledgers (each has its own reference) "
                        "(round_decimal is checked under C16)"]
     res.not_decided = ["sortedness of the book (data)", "float arithmetic of level sizes"]
     return res
@@ -431,7 +431,7 @@ MANIFEST = {
              "record), the cash account (deposit / withdraw / overdraft rejection), the cost estimate, the per-bar status "
              "(snapshot of the hour containing the bar) and equity are identical, path by path, to a reference model "
              "written from the statement; the fill loop equals the reference loop (list order, min(level, remaining), level "
-             "shrunk by the take, stop conditions, limit orders only at the matching level); sells are gated by the holding; "
+             "shrunk by the take, stop conditions, limit orders only at the matching level, whose selector equals its own reference: strictly within 0.1% of the limit); sells are gated by the holding; "
              "no in-place mutation can reach a level list stored in the loaded data (every mutating function receives a "
              "deep copy; the book shrinks only by rebinding the cell to a new list).",
     "note": "Trusted: the reference model in sa/props/C15.py; helper functions treated as opaque atoms; list-of-levels "
